@@ -313,9 +313,27 @@ def _label(pat, regex_pattern, path, direction, existing=None):
             return "negated-class-matches-separator"
     if direction == "missing":
         if path.endswith("/") and not re.fullmatch(regex_pattern, path) and \
-                re.fullmatch(regex_pattern, path[:-1]):
+                re.fullmatch(regex_pattern, path[:-1]) and not _ends_in_star(pat):
             return "directory-match-dropped-when-pattern-does-not-end-in-star"
     return None
+
+
+def _ends_in_star(pat):
+    """The pattern's last atom is star-like (anonymous star, recursive wildcard, or the first
+    occurrence of a named wildcard whose sub-pattern is the default or spelled out as '*'):
+    the documented case in which a directory match keeps its trailing separator."""
+    last = pat["comps"][-1]
+    if last[0] == "rec":
+        return True
+    atom = last[1][-1]
+    if atom[0] == "star":
+        return True
+    if atom[0] == "name":
+        seen = [a[1] for comp in pat["comps"] if comp[0] == "comp" for a in comp[1]
+                if a[0] == "name"]
+        first_occurrence = seen.count(atom[1]) == 1
+        return first_occurrence and pat["subs"].get(atom[1]) in (None, "*")
+    return False
 
 
 def _repair_empty_last(pat, regex_pattern):
